@@ -1,5 +1,12 @@
 """reader kernels (C13-K1)."""
-from vxlib import Inst
+from vxlib import Inst, CORE_TUS, FMT_STUBS, CTX_STUBS, CONTAINER_STUBS
 def instances():
-    return [Inst(id="c13.stringreader.%d" % n, props=["C13", "C01"], harness="h_reader.cpp", entry="c13_string_reader", tus=["blocc/string_reader.cpp"], defs=["VX_TLEN=%d" % n],
+    extra = []
+    for n in (3, 4):
+        extra.append(Inst(id="c13.readfile.%d" % n, props=["C13", "C19", "C01"], harness="h_readfile.cpp", entry="c13_read_file", tus=["apps/read_file.cpp"], defs=["VX_TLEN=%d" % n, "VX_WHICH=0"],
+                          unwind=n + 5, timeout=600, tier="quick" if n <= 3 else "thorough", bounds="file of %d symbolic bytes, max_size 1..3" % n, inputs="file bytes, max_size", quick_also=["C19"]))
+    extra.append(Inst(id="c13.readfile.include.3", props=["C13", "C01"], harness="h_readfile.cpp", entry="c13_read_file", tus=[t for t in CORE_TUS], defs=["VX_TLEN=3", "VX_WHICH=1"],
+                      stubs=FMT_STUBS + CTX_STUBS + CONTAINER_STUBS + ["_ZN4bloc16INCLUDEStatement10loadSourceERNS_6ParserERNS_7ContextE", "_ZN4bloc16INCLUDEStatement5parseERNS_6ParserERNS_7ContextE", "_ZNK4bloc16INCLUDEStatement4doitERNS_7ContextE"],
+                      unwind=8, timeout=600, bounds="file of 3 symbolic bytes through the reader copy of statement_include.cpp", inputs="file bytes, max_size"))
+    return extra + [Inst(id="c13.stringreader.%d" % n, props=["C13", "C01"], harness="h_reader.cpp", entry="c13_string_reader", tus=["blocc/string_reader.cpp"], defs=["VX_TLEN=%d" % n],
                  unwind=n + 4, timeout=600, tier="quick" if n <= 3 else "thorough", bounds="text of %d symbolic bytes, max_size 1..3" % n, inputs="text bytes, max_size") for n in (2, 3, 4)]
